@@ -82,12 +82,7 @@ impl VisitMut for BlockTransformVisitor<'_> {
         if self.transform_status.status == Status::Modified {
             match node {
                 Program::Script(script) => {
-                    let mut index = 0;
-                    if let Some(stmt) = script.body.first() {
-                        if stmt.is_use_strict() {
-                            index = 1;
-                        }
-                    }
+                    let index = get_variable_insertion_index(&script.body);
 
                     for prefix_statement in self.config.file_prefix_code.iter().rev() {
                         script.body.insert(index, prefix_statement.clone());
@@ -95,10 +90,8 @@ impl VisitMut for BlockTransformVisitor<'_> {
                 }
                 Program::Module(module) => {
                     let mut index = 0;
-                    if let Some(ModuleItem::Stmt(stmt)) = module.body.first() {
-                        if stmt.is_use_strict() {
-                            index = 1;
-                        }
+                    while index < module.body.len() && is_directive_item(&module.body[index]) {
+                        index += 1;
                     }
 
                     for prefix_statement in self.config.file_prefix_code.iter().rev() {
@@ -147,10 +140,18 @@ fn insert_variable_declaration(ident_expressions: &[Ident], expr: &mut BlockStmt
     }
 }
 
+// injected code goes after the whole directive prologue ('use strict' and any other directive)
 fn get_variable_insertion_index(stmts: &[Stmt]) -> usize {
-    if !stmts.is_empty() && stmts[0].is_use_strict() {
-        1
-    } else {
-        0
+    let mut index = 0;
+    while index < stmts.len() && stmts[index].can_precede_directive() {
+        index += 1;
+    }
+    index
+}
+
+fn is_directive_item(item: &ModuleItem) -> bool {
+    match item {
+        ModuleItem::Stmt(stmt) => stmt.can_precede_directive(),
+        _ => false,
     }
 }
